@@ -464,7 +464,22 @@ func (c *Ctx) exec(fr *frame, in ssa.Instruction) {
 		// deferred calls run at RunDefers (normal return); a panic skips them (no recover in the model)
 		cc := in.Common()
 		if cc.IsInvoke() {
-			panic(c.abort("defer of an interface method call"))
+			// receiver and arguments are evaluated now, the method runs at RunDefers
+			recv := c.get(fr, cc.Value)
+			iv, ok := recv.(IfaceV)
+			if !ok {
+				panic(c.abort("deferred invoke on %T", recv))
+			}
+			if iv.T == nil {
+				panic(c.goPanic("deferred nil interface method call %s at %s", cc.Method.Name(), c.pos(in.Pos())))
+			}
+			var args []Value
+			for _, a := range cc.Args {
+				args = append(args, c.get(fr, a))
+			}
+			m := cc.Method
+			fr.defers = append(fr.defers, func() { c.invoke(iv, m, args) })
+			break
 		}
 		fv := c.get(fr, cc.Value)
 		var args []Value
